@@ -4,8 +4,10 @@ static inline vstr vstr_cstr(const char *p) { vstr v; v.ptr = (char *)p; size_t 
 size_t g_k;
 vstr *g_path; unsigned g_info_calls, g_ck_calls, g_hash_calls; _Bool g_used_link;
 long nondet_long(void);
+const char *g_rl_buf, *g_rl_path, *g_hash_src; long g_rl_len;   /* ghost: where readlink put the target, whose link it read, its answer; the text the hasher was given */
 /* readlink(2): -1 for anything that is not a symbolic link, otherwise a length that fits the buffer */
 static inline long verif_readlink(const char *p, char *buf, size_t n) {
   long r = nondet_long(); __CPROVER_assume(r >= -1 && (r == -1 || (size_t)r <= n));
+  g_rl_buf = buf; g_rl_path = p; g_rl_len = r;
   return r;
 }
